@@ -194,3 +194,26 @@ pub fn pan7_good(text: &str) -> String {
     let cut = text.find('>').unwrap_or(text.len());
     text[..cut].to_string()
 }
+
+// ---- SYN-2 core: a cursor rewind re-read through a history-dependent stepper (bad) / restored directly (good)
+#[derive(Clone, Copy, PartialEq, Eq)]
+pub enum K2 { A, Comment, Eol }
+#[derive(Clone)]
+pub struct Tk2Token { pub kind: K2 }
+pub struct Cur2 { list: Vec<Tk2Token>, at: usize, tok: Tk2Token }
+impl Cur2 {
+    fn step(&mut self) {
+        self.at += 1;
+        self.tok = if self.at < self.list.len() && self.tok.kind != K2::Comment { self.list[self.at].clone() } else { Tk2Token { kind: K2::Eol } };
+    }
+    pub fn syn2_bad(&mut self, mark: usize) -> bool {
+        self.step();
+        if self.tok.kind != K2::A { self.at = mark - 1; self.step(); return false }
+        true
+    }
+    pub fn syn2_good(&mut self, mark: usize) -> bool {
+        self.step();
+        if self.tok.kind != K2::A { self.at = mark; self.tok = self.list[mark].clone(); return false }
+        true
+    }
+}
